@@ -34,10 +34,6 @@ inductive KidShape where
   | oneText (d : Str)
   | many
 
-/-- `isBlankText` (component.go): a text node of HTML white space only - space, tab, LF, FF, CR - is layout between tags and is not
-    written; every other character, the no-break space and the other Unicode spaces included, is content -/
-def blankText (d : Str) : Bool := d.all (fun c => c == ' ' || c == '\t' || c == '\n' || c == '\x0c' || c == '\r')
-
 def kidShape : List Node → KidShape
   | [] => .none
   | [.text d] => .oneText d
